@@ -37,6 +37,9 @@ mod wtrace {
     pub static LO: AtomicUsize = AtomicUsize::new(0);
     pub static LEN: AtomicUsize = AtomicUsize::new(0);
     pub static COUNT: AtomicUsize = AtomicUsize::new(0);
+    /// protection of the armed arena: 1 = PROT_READ (`--trace`: only stores fault and are recorded),
+    /// 0 = PROT_NONE (`--trace-all`: loads too)
+    pub static PROT: AtomicUsize = AtomicUsize::new(1);
     pub const CAP: usize = 1 << 17;
     pub static mut LOG: [usize; CAP] = [0; CAP];
     #[repr(C)]
@@ -85,7 +88,7 @@ mod wtrace {
         let lo = LO.load(Ordering::Relaxed);
         let len = LEN.load(Ordering::Relaxed);
         if len != 0 {
-            mprotect(lo as *mut u8, len, 0);
+            mprotect(lo as *mut u8, len, PROT.load(Ordering::Relaxed) as i32);
         }
         let efl = ctx.add(REG_EFL_OFF) as *mut u64;
         *efl &= !0x100u64;
@@ -100,7 +103,7 @@ mod wtrace {
         COUNT.store(0, Ordering::Relaxed);
         LO.store(lo, Ordering::Relaxed);
         LEN.store(len, Ordering::Relaxed);
-        mprotect(lo as *mut u8, len, 0);
+        mprotect(lo as *mut u8, len, PROT.load(Ordering::Relaxed) as i32);
     }
     pub unsafe fn disarm() -> usize {
         let lo = LO.load(Ordering::Relaxed);
@@ -211,34 +214,42 @@ impl Arena {
                 assert!(!self.ptr.is_null());
             }
         }
-        let all = unsafe { std::slice::from_raw_parts_mut(self.ptr, need) };
-        for b in all[..MARGIN].iter_mut() {
-            *b = MARGIN_BYTE;
-        }
-        for b in all[MARGIN + size..].iter_mut() {
-            *b = MARGIN_BYTE;
-        }
-        let mut j = 0usize; // i % 251 without a division per byte
-        let s = seed.wrapping_mul(13) + 3;
-        for b in all[MARGIN..MARGIN + size].iter_mut() {
-            *b = ((j as u64 * 7 + s) % 256) as u8;
-            j += 1;
-            if j == 251 {
-                j = 0;
+        // (std's write_bytes / copy_nonoverlapping are libc's memset / memcpy here, not the code under test)
+        unsafe {
+            std::ptr::write_bytes(self.ptr, MARGIN_BYTE, MARGIN);
+            std::ptr::write_bytes(self.ptr.add(MARGIN + size), MARGIN_BYTE, MARGIN);
+            let base = self.ptr.add(MARGIN);
+            // one period of the pattern byte by byte, the rest by doubling (byte i = byte i % 251)
+            let s = seed.wrapping_mul(13) + 3;
+            let first = size.min(251);
+            for j in 0..first {
+                *base.add(j) = ((j as u64 * 7 + s) % 256) as u8;
             }
+            let mut filled = first;
+            while filled < size {
+                let k = filled.min(size - filled);
+                std::ptr::copy_nonoverlapping(base, base.add(filled), k);
+                filled += k;
+            }
+            base
         }
-        unsafe { self.ptr.add(MARGIN) }
     }
     fn wild(&self, size: usize) -> bool {
         let all = unsafe { std::slice::from_raw_parts(self.ptr, size + 2 * MARGIN) };
-        all[..MARGIN].iter().any(|b| *b != MARGIN_BYTE) || all[MARGIN + size..].iter().any(|b| *b != MARGIN_BYTE)
+        const M: [u8; MARGIN] = [MARGIN_BYTE; MARGIN];
+        all[..MARGIN] != M[..] || all[MARGIN + size..] != M[..]
     }
     fn hash(&self, size: usize) -> u64 {
         let a = unsafe { std::slice::from_raw_parts(self.ptr.add(MARGIN), size) };
         let mut h: u64 = 0;
+        // x mod (2^55 - 55) without a division: 2^55 = 55 (mod P), so x = hi * 2^55 + lo = hi * 55 + lo; with h < P the
+        // value x = h * 256 + b is below 2^63 and the folded one below 2^55 + 14080 < 2 P
         for b in a.iter().rev() {
-            h = (h * 256 + *b as u64) % HASH_P;
+            let x = h * 256 + *b as u64;
+            let y = (x >> 55) * 55 + (x & ((1u64 << 55) - 1));
+            h = if y >= HASH_P { y - HASH_P } else { y };
         }
+        debug_assert!(h < HASH_P);
         h
     }
 }
@@ -406,10 +417,10 @@ fn run(ar: &mut Arena, line: &str) -> Option<String> {
             if cnt > wtrace::CAP {
                 out.push_str(" trace-truncated");
             }
-            out.push_str(&format!(
-                " stores={} outside={} first_outside_rel_dest={} loads={} loads_outside={} first_load_outside_at={}",
-                stores, outside, first, loads, lout, lfirst
-            ));
+            out.push_str(&format!(" stores={} outside={} first_outside_rel_dest={}", stores, outside, first));
+            if wtrace::PROT.load(core::sync::atomic::Ordering::Relaxed) == 0 {
+                out.push_str(&format!(" loads={} loads_outside={} first_load_outside_at={}", loads, lout, lfirst));
+            }
         }
     }
     if ar.wild(size) {
@@ -423,8 +434,10 @@ fn main() {
     let stdout = std::io::stdout();
     let mut o = std::io::BufWriter::new(stdout.lock());
     let mut ar = Arena::new();
-    if std::env::args().any(|a| a == "--trace") {
+    let trace_all = std::env::args().any(|a| a == "--trace-all");
+    if trace_all || std::env::args().any(|a| a == "--trace") {
         TRACE.store(true, core::sync::atomic::Ordering::Relaxed);
+        wtrace::PROT.store(if trace_all { 0 } else { 1 }, core::sync::atomic::Ordering::Relaxed);
         unsafe { wtrace::install() };
     } else {
         unsafe { guard::install() };
